@@ -250,10 +250,9 @@ func (w *Writer) DeleteNode(x *skiplist.Node) (success bool) {
 		success = w.store.DeleteNode(x, w.insCmp, w.buf, &w.slSts1)
 		if success {
 			x.SetLink(nil)
+			barrier := w.store.GetAccesBarrier()
+			barrier.FlushSession(unsafe.Pointer(x))
 		}
-
-		barrier := w.store.GetAccesBarrier()
-		barrier.FlushSession(unsafe.Pointer(x))
 		return
 	}
 
